@@ -293,7 +293,7 @@ class SchemaGen:
     def bad_leaf(self):
         r = self.r
         return r.choice([float("nan"), float("inf"), 2**31, -2**31 - 1, 1.5, "abc", "12", "", True, [], [1], {}, {"a": 1}, (1, 2), 10**400,
-                         "BAD", "A", "Z", 0, -0.0, 2.0, "1e400", {"x": False, "m": "as value", "e": []}, {"o": "Weird", "a": []}, None,
+                         "BAD", "A", "Z", 0, -0.0, 2.0, "1e400", {"x": False, "m": "as value", "e": []}, {"o": "Weird", "a": []}, {"o": "BaseSignal", "a": []}, None,
                          {"x": False, "m": "", "e": [], "multi": 1}])
 
     def targeted_bad(self, ty):
@@ -465,7 +465,10 @@ class DocGen:
         self.op_kinds = op_kinds
         self.stats = {"fields": 0, "aliases": 0, "fragments": 0, "inline": 0, "directives": 0, "vars": 0, "merged": 0, "depth": 0}
         self.pending_var_uses = []   # variables used inside fragments, must be declared by every op spreading them
+        self.frag_heads = {}         # fragment name -> directive text on its definition
 
+    def_directive = None          # name of a custom directive usable on QUERY / MUTATION / FRAGMENT_DEFINITION (declared + registered by the check)
+    share_names = 0.12            # probability that one used fragment is given the NAME of one of the document's operations
     null_condition_vars = False   # let @skip/@include conditions be nullable variables with a default too (KF-C01-1; C01/C05 only)
     nullable_default_vars = 0.2   # probability of declaring the variable of a non-null leaf position nullable WITH a default
     bad_var_defaults = 0.0    # probability of a variable default literal of the WRONG KIND with a look-alike text (C04 / C16)
@@ -674,6 +677,10 @@ class DocGen:
             entry = [name, tc, None, depth + 1]
             body = self.selection_set(tc, depth + 1, vars_)     # built BEFORE registration: no cycles, only DAG sharing
             entry[2] = body
+            if self.def_directive and vars_ is not None and r.random() < 0.3:
+                # a custom directive on the fragment DEFINITION, its argument a variable (declared by every operation reaching it)
+                hv = self.new_var(N("String"), vars_)
+                self.frag_heads[name] = f" @{self.def_directive}(t: ${hv})" if r.random() < 0.7 else f' @{self.def_directive}(t: "lit")' 
             self.frags.append(entry)
             f = entry
         d, _ = self.directives_text(vars_)
@@ -695,11 +702,15 @@ class DocGen:
             name = f"Op{i}" if (n_ops > 1 or r.random() < 0.5) else None
             root = {"query": "Query", "mutation": self.sg.mutation["name"] if self.sg.mutation else "Mutation", "subscription": "Subscription"}[kind]
             body = self.selection_set(root, 0, shared_vars)
-            ops.append((kind, name, body))
+            ophead = ""
+            if self.def_directive and r.random() < 0.25:
+                hv = self.new_var(N("String"), shared_vars)
+                ophead = f" @{self.def_directive}(t: ${hv})"
+            ops.append((kind, name, body, ophead))
         # every operation declares every variable (fragments are shared, so uses are shared)
         # -> only spread fragments count for "used"; to stay valid each op must USE all it declares:
         # we therefore emit, per op, only variables that textually occur in its body or in fragments it reaches.
-        frag_text = {f[0]: f[2] for f in self.frags}
+        frag_text = {f[0]: self.frag_heads.get(f[0], "") + f[2] for f in self.frags}
         def reach(body, seen):
             import re
             for m in re.finditer(r"\.\.\.(F\d+)", body):
@@ -709,23 +720,31 @@ class DocGen:
         texts = []
         used_frags = set()
         op_vars = []
-        for kind, name, body in ops:
+        for kind, name, body, ophead in ops:
             import re
             seen = reach(body, set())
             used_frags |= seen
-            alltext = body + " ".join(frag_text[f] for f in seen)
+            alltext = ophead + body + " ".join(frag_text[f] for f in seen)
             names = sorted(set(re.findall(r"\$(v\d+)", alltext)), key=lambda s: int(s[1:]))
             decl = ""
             if names:
                 decl = "(" + ", ".join(f"${n}: {tstr(shared_vars[n][0])}" + (f" = {print_value(shared_vars[n][1])}" if shared_vars[n][1] else "") for n in names) + ")"
-            head = "" if (kind == "query" and name is None and not decl) else f"{kind} {name or ''}{decl} "
+            head = "" if (kind == "query" and name is None and not decl and not ophead) else f"{kind} {name or ''}{decl}{ophead} "
             texts.append(head + body)
             op_vars.append({n: shared_vars[n] for n in names})
         for f in self.frags:
             if f[0] in used_frags:
-                texts.append(f"fragment {f[0]} on {f[1]} {f[2]}")
+                texts.append(f"fragment {f[0]} on {f[1]}{self.frag_heads.get(f[0], '')} {f[2]}")
         if r.random() < 0.5: texts.reverse()        # fragments defined before use, operations last
-        return "\n".join(texts), [(k, n) for k, n, _ in ops], op_vars
+        doc_text = "\n".join(texts)
+        # operation names and fragment names are separate namespaces: a used fragment may carry the name of an operation
+        named_ops = [n for _, n, _, _ in ops if n]
+        if self.share_names and named_ops and used_frags and r.random() < self.share_names:
+            import re
+            fr_ = r.choice(sorted(used_frags)); on_ = r.choice(named_ops)
+            doc_text = re.sub(r"\.\.\." + fr_ + r"\b", "..." + on_, doc_text)
+            doc_text = re.sub(r"^fragment " + fr_ + r" on ", "fragment " + on_ + " on ", doc_text, flags=re.M)
+        return doc_text, [(k, n) for k, n, _, _ in ops], op_vars
 
     def floatify(self, ty, val):
         """the same valid JSON value with some integers at Int positions spelled as integral floats (3 -> 3.0): accepted for
